@@ -304,6 +304,20 @@ def strip_prefix (s pat : Str) : Option Str :=
 def strip_suffix (s pat : Str) : Option Str :=
   if ends_with s pat then some ⟨s.chars.take (s.chars.length - pat.chars.length)⟩ else none
 def append (a b : Str) : Str := ⟨a.chars ++ b.chars⟩
+/-- `s.is_empty()` -/
+def is_empty (s : Str) : Bool := s.chars.isEmpty
+/-- `s.is_char_boundary(i)`: `i` is 0, the length, or the offset of a character -/
+def is_char_boundary {ι} [ToOff ι] (s : Str) (i : ι) : Bool := (dropBytes s.chars (ToOff.toOff i)).isSome
+/-- `s.split_at(i)`: panics where `i` is past the end or inside a character -/
+def split_at {ι} [ToOff ι] (s : Str) (i : ι) : Res (Str × Str) :=
+  match takeBytes s.chars (ToOff.toOff i), dropBytes s.chars (ToOff.toOff i) with
+  | some a, some b => .ok (⟨a⟩, ⟨b⟩)
+  | _, _ => .panic
+/-- `s.split_at_checked(i)` -/
+def split_at_checked {ι} [ToOff ι] (s : Str) (i : ι) : Option (Str × Str) :=
+  match takeBytes s.chars (ToOff.toOff i), dropBytes s.chars (ToOff.toOff i) with
+  | some a, some b => some (⟨a⟩, ⟨b⟩)
+  | _, _ => none
 def join (l : List Str) (sep : Str) : Str := ⟨List.intercalate sep.chars (l.map Str.chars)⟩
 
 end Str
